@@ -44,6 +44,25 @@ impl Bdd {
     }
 }
 
+#[cfg(feature = "verif-hooks")]
+impl Bdd {
+    /// Create a manager with explicit table, bucket and cache sizes (all as powers of two).
+    pub fn with_config(storage_bits: usize, bucket_bits: usize, cache_bits: usize) -> Self {
+        let mut storage = Storage::with_buckets(storage_bits, bucket_bits);
+        let one = storage.alloc();
+        assert_eq!(one, 1);
+        let one = Ref::positive(one as u32);
+        let zero = -one;
+        Self {
+            storage: RefCell::new(storage),
+            cache: RefCell::new(Cache::new(cache_bits)),
+            size_cache: RefCell::new(Cache::new(cache_bits)),
+            zero,
+            one,
+        }
+    }
+}
+
 impl Default for Bdd {
     fn default() -> Self {
         Bdd::new(20)
